@@ -76,6 +76,7 @@ def _same_emptiness(fi, name: str, at=None):
     from .extra import reaching_assign
 
     out, work = {name}, [(name, at)]
+    seen = set()
     while work:
         nm, where = work.pop()
         ds = [a for a in ast.walk(fi.node) if isinstance(a, ast.Assign) and len(a.targets) == 1 and isinstance(a.targets[0], ast.Name) and a.targets[0].id == nm]
@@ -92,6 +93,10 @@ def _same_emptiness(fi, name: str, at=None):
         if isinstance(v, ast.Name) and v.id not in out:
             out.add(v.id)
             work.append((v.id, where))
+        elif isinstance(v, ast.Name) and v.id == nm and (nm, id(where)) not in seen:
+            # `p = tuple(p); p = filter(p)`: the same name, one definition further back
+            seen.add((nm, id(where)))
+            work.append((nm, where))
     return out
 
 
